@@ -144,7 +144,12 @@ impl cbor_event::de::Deserialize for Attributes {
                 ATTRIBUTE_NAME_TAG_PROTOCOL_MAGIC => {
                     // Yes, this is an integer encoded as CBOR encoded as Bytes in CBOR.
                     let bytes = reader.bytes()?;
-                    let n = Deserializer::from(std::io::Cursor::new(bytes)).deserialize::<u32>()?;
+                    let magic_len = bytes.len() as u64;
+                    let mut magic_raw = Deserializer::from(std::io::Cursor::new(bytes));
+                    let n = magic_raw.deserialize::<u32>()?;
+                    if magic_raw.as_mut_ref().position() != magic_len {
+                        return Err(cbor_event::Error::TrailingData);
+                    }
                     protocol_magic = Some(n);
                 }
                 _ => {
@@ -342,7 +347,11 @@ impl TryFrom<&[u8]> for ExtendedAddr {
 
     fn try_from(slice: &[u8]) -> Result<Self, Self::Error> {
         let mut raw = Deserializer::from(std::io::Cursor::new(slice));
-        cbor_event::de::Deserialize::deserialize(&mut raw)
+        let addr = cbor_event::de::Deserialize::deserialize(&mut raw)?;
+        if raw.as_mut_ref().position() != slice.len() as u64 {
+            return Err(cbor_event::Error::TrailingData);
+        }
+        Ok(addr)
     }
 }
 impl cbor_event::se::Serialize for ExtendedAddr {
@@ -361,6 +370,7 @@ impl cbor_event::se::Serialize for ExtendedAddr {
 impl cbor_event::de::Deserialize for ExtendedAddr {
     fn deserialize<R: BufRead>(reader: &mut Deserializer<R>) -> cbor_event::Result<Self> {
         let bytes = cbor::util::raw_with_crc32(reader)?;
+        let payload_len = bytes.len() as u64;
         let mut raw = Deserializer::from(std::io::Cursor::new(bytes));
         raw.tuple(3, "ExtendedAddr")?;
         let addr_bytes = raw.bytes()?;
@@ -373,6 +383,9 @@ impl cbor_event::de::Deserialize for ExtendedAddr {
         })?;
         let attributes = cbor_event::de::Deserialize::deserialize(&mut raw)?;
         let addr_type = cbor_event::de::Deserialize::deserialize(&mut raw)?;
+        if raw.as_mut_ref().position() != payload_len {
+            return Err(cbor_event::Error::TrailingData);
+        }
         Ok(ExtendedAddr {
             addr,
             addr_type,
